@@ -27,6 +27,10 @@ type PropSpecFile struct {
 	SafetyKinds      []string `json:"safety_kinds"`
 	IgnoreObligation []string `json:"not_claimed"` // obligation name prefixes generated but not claimed (with reason after " -- ")
 	MaxInline        int      `json:"max_inline"`
+	SafetySweep      bool     `json:"safety_sweep"`  // sweep every module function with safety obligations
+	SweepInline      int      `json:"sweep_inline"`  // inline depth for swept functions
+	SweepBudget      int      `json:"sweep_budget"`  // inlined-instruction budget for swept functions
+	SweepQuickPrefix []string `json:"sweep_quick_prefixes"` // quick tier: only functions with these key prefixes (empty = all)
 }
 
 type KnownFinding struct {
@@ -152,6 +156,7 @@ func checkProperty(dir string, P *Program, C *Contracts, id, tier string, verbos
 	type job struct {
 		key    string
 		safety bool
+		sweep  bool
 	}
 	var jobs []job
 	seen := map[string]bool{}
@@ -162,13 +167,26 @@ func checkProperty(dir string, P *Program, C *Contracts, id, tier string, verbos
 	for _, k := range spec.Functions {
 		if !seen[k] {
 			seen[k] = true
-			jobs = append(jobs, job{k, safetySet[k]})
+			jobs = append(jobs, job{k, safetySet[k] || spec.SafetySweep, false})
 		}
 	}
 	for _, k := range spec.Safety {
 		if !seen[k] {
 			seen[k] = true
-			jobs = append(jobs, job{k, true})
+			jobs = append(jobs, job{k, true, false})
+		}
+	}
+	if spec.SafetySweep {
+		for _, k := range P.sortedFuncKeys() {
+			fn := P.Funcs[k]
+			if seen[k] || !isModuleFunc(fn) || len(fn.Blocks) == 0 || strings.Contains(k, "mock.") || strings.HasSuffix(k, ".init") || isGeneratedFunc(P, fn) {
+				continue
+			}
+			if tier == "quick" && len(spec.SweepQuickPrefix) > 0 && !matchAny(k, spec.SweepQuickPrefix) {
+				continue
+			}
+			seen[k] = true
+			jobs = append(jobs, job{k, true, true})
 		}
 	}
 	var violations []string // obligation names
@@ -187,7 +205,18 @@ func checkProperty(dir string, P *Program, C *Contracts, id, tier string, verbos
 			defer wg.Done()
 			gensem <- struct{}{}
 			g0 := time.Now()
-			vc := NewVC(P, C, fn, VCOpts{Safety: j.safety, MaxInline: spec.MaxInline, Canary: true})
+			opts := VCOpts{Safety: j.safety, MaxInline: spec.MaxInline, Canary: true}
+			if j.sweep || spec.SafetySweep {
+				opts.MaxInline = spec.SweepInline
+				opts.InlineBudget = spec.SweepBudget
+				if opts.MaxInline == 0 {
+					opts.MaxInline = 2
+				}
+				if opts.InlineBudget == 0 {
+					opts.InlineBudget = 300
+				}
+			}
+			vc := NewVC(P, C, fn, opts)
 			vc.Generate()
 			<-gensem
 			fr := &funcResult{key: j.key, vc: vc, genS: time.Since(g0).Seconds()}
@@ -198,6 +227,35 @@ func checkProperty(dir string, P *Program, C *Contracts, id, tier string, verbos
 		}(i, j)
 	}
 	wg.Wait()
+
+	// second chance for obligations left undecided under load: re-run them with a longer
+	// timeout and little parallelism (an undecided obligation is never reported as proved)
+	{
+		d2 := NewDischarger(outDir, timeout*5, 4)
+		d2.Thorough = false
+		var wg2 sync.WaitGroup
+		for _, r := range results {
+			if r == nil {
+				continue
+			}
+			for _, ob := range r.obs {
+				if ob.Result == "timeout" || ob.Result == "unknown" {
+					wg2.Add(1)
+					go func(r *funcResult, ob *Oblig) {
+						defer wg2.Done()
+						d2.standalone(r.vc, ob, filepath.Join(outDir, sanitize(r.key)))
+					}(r, ob)
+				}
+			}
+		}
+		wg2.Wait()
+		for k, v := range d2.BySolver {
+			d.BySolver[k] += v
+		}
+		for k, v := range d2.SolverSec {
+			d.SolverSec[k] += v
+		}
+	}
 
 	known := loadKnown(dir)
 	knownByOb := map[string]KnownFinding{}
